@@ -237,6 +237,10 @@ func (ch *channel) SendEnd(ctx async.Context) status.Status {
 // The message is valid until the next call to Receive/ReceiveAsync.
 func (ch *channel) Receive(ctx async.Context) ([]byte, status.Status) {
 	for {
+		// Get the wait channel before reading, otherwise a message received
+		// in between can be missed.
+		wait := ch.ReceiveWait()
+
 		msg, ok, st := ch.ReceiveAsync(ctx)
 		switch {
 		case !st.OK():
@@ -248,7 +252,7 @@ func (ch *channel) Receive(ctx async.Context) ([]byte, status.Status) {
 		select {
 		case <-ctx.Wait():
 			return nil, ctx.Status()
-		case <-ch.ReceiveWait():
+		case <-wait:
 		}
 	}
 }
